@@ -419,11 +419,14 @@ pub struct Ref<'a> {
     occ: BTreeMap<(usize, u32), u32>,
     /// log of every struct creation (creator node, identity value, occurrence)
     pub created: Vec<(usize, u32, u32)>,
+    /// input fields read by the function being evaluated / by the last finished `run_fn`
+    in_reads: Vec<usize>,
+    last_reads: Vec<usize>,
 }
 
 impl<'a> Ref<'a> {
     pub fn new(env: Env<'a>) -> Self {
-        Ref { env, pushes: vec![], callees: vec![], occ: BTreeMap::new(), created: vec![] }
+        Ref { env, pushes: vec![], callees: vec![], occ: BTreeMap::new(), created: vec![], in_reads: vec![], last_reads: vec![] }
     }
 
     /// identities (identity value, occurrence) of the structs a from-scratch run of node q creates
@@ -441,6 +444,7 @@ impl<'a> Ref<'a> {
     /// evaluate one function in a fresh frame: (value, own pushes, callees in first-call order)
     fn run_fn(&mut self, f: &FnId) -> (RV, Vec<u32>, Vec<FnId>) {
         let saved = (std::mem::take(&mut self.pushes), std::mem::take(&mut self.callees), std::mem::take(&mut self.occ));
+        let saved_reads = std::mem::take(&mut self.in_reads);
         let v = match f {
             FnId::Node(q) => {
                 let e = self.env.prog.nodes[*q].1.clone();
@@ -467,7 +471,16 @@ impl<'a> Ref<'a> {
         self.pushes = saved.0;
         self.callees = saved.1;
         self.occ = saved.2;
+        self.last_reads = std::mem::replace(&mut self.in_reads, saved_reads);
         out
+    }
+
+    /// direct dependencies of a from-scratch run of node q: (input fields read, nodes called)
+    pub fn direct_deps(&mut self, q: usize) -> (Vec<usize>, Vec<usize>) {
+        let (_, _, callees) = self.run_fn(&FnId::Node(q));
+        let reads = self.last_reads.clone();
+        let nodes = callees.into_iter().filter_map(|c| if let FnId::Node(j) = c { Some(j) } else { None }).collect();
+        (reads, nodes)
     }
 
     fn call(&mut self, f: FnId) -> RV {
@@ -497,7 +510,12 @@ impl<'a> Ref<'a> {
     fn eval(&mut self, e: &E, ctx: Ctx) -> RV {
         match e {
             E::C(n) => RV::num(*n),
-            E::In(i) => RV::num(self.env.inputs[*i]),
+            E::In(i) => {
+                if !self.in_reads.contains(i) {
+                    self.in_reads.push(*i);
+                }
+                RV::num(self.env.inputs[*i])
+            }
             E::Cell(c) => RV::num(self.env.cells[*c]),
             E::Call(j) => self.call(FnId::Node(*j)),
             E::Add(a, b) => {
